@@ -20,7 +20,9 @@ from engine import chx
 
 VERIF = os.path.dirname(os.path.dirname(os.path.abspath(__file__)))
 REPLAYS = os.path.join(VERIF, "replays")
-EVIDENCE = os.path.join(VERIF, "evidence")
+# my own mutation runs (VERIF_REPO pointing at a scratch copy) must not overwrite the evidence of /repo
+EVIDENCE = os.environ.get("VERIF_EVIDENCE_DIR") or (os.path.join(VERIF, "evidence") if os.environ.get("VERIF_REPO", "/repo") == "/repo"
+                                                     else "/tmp/verif-mutant-evidence")
 KNOWN = os.path.join(VERIF, "known_findings.json")
 PLAIN_PY = "/venv/bin/python"  # replay interpreter: no CrossHair on its path
 
